@@ -71,7 +71,9 @@ class Facts:
     """what a configuration knows: truth of some values, sign of some symbols, symbols that are pairwise different objects, and
     *generic* symbols (a generic symbol differs from whatever it is compared with)"""
 
-    def __init__(self, truths=(), signs=None, generic=(), distinct=("None", "float", "complex"), generic_prefix=None):
+    def __init__(self, truths=(), signs=None, generic=(), distinct=("None", "float", "complex"), generic_prefix=None, ge2=()):
+        self.ge2 = list(ge2)                # values known to be at least 2 (the number of time steps when a send is possible)
+        self.ge2_exact = False              # ... taken to be exactly 2 (the smallest case in which a send is possible)
         self.truths = list(truths)
         self.signs = dict(signs or {})
         self.generic = set(generic)
@@ -119,8 +121,21 @@ def _sign(v, facts):
         c = v.const_value()
         return "+" if c > 0 else ("-" if c < 0 else "0")
     s = symname(v)
-    if s is not None:
+    if s is not None and s in facts.signs:
         return facts.signs.get(s)
+    for g in facts.ge2:
+        k = v - g
+        if k.is_const():                    # v = g + k >= 2 + k
+            lo = 2 + k.const_value()
+            if facts.ge2_exact:
+                return "+" if lo > 0 else ("-" if lo < 0 else "0")
+            return "+" if lo > 0 else (">=0" if lo == 0 else None)
+        k = v + g
+        if k.is_const():                    # v = k - g <= k - 2
+            hi = k.const_value() - 2
+            if facts.ge2_exact:
+                return "+" if hi > 0 else ("-" if hi < 0 else "0")
+            return "-" if hi < 0 else None
     return None
 
 
@@ -252,6 +267,13 @@ class ModConsts:
         return None
 
 
+def parent_if(node):
+    n = getattr(node, "_vparent", None)
+    while n is not None and not isinstance(n, ast.If):
+        n = getattr(n, "_vparent", None)
+    return n
+
+
 def rel_of(fn):
     m = getattr(fn, "_vmod", None)
     return m.rel if m is not None else None
@@ -335,8 +357,11 @@ class GenEval(AutoEvaluator):
         self.events = []                        # ("call", name, pos, kws, node) | ("setattr", dotted, value, node) | ("del", dotted, node) | ("raise", node)
         self.trace = []                         # ("stmt", node) | ("enter", call node, fn) | ("exit", call node, fn)
         self.skipped_guards = []
+        self.prime_yields = []                  # bare `yield` statements executed before the generator loop
+        self.maybe_prime = []                   # ... that sit under a test the configuration does not decide
         a = fn.args
         params = {x.arg for x in a.posonlyargs + a.args + a.kwonlyargs} | ({a.vararg.arg} if a.vararg else set()) | ({a.kwarg.arg} if a.kwarg else set())
+        self.params_ = params
         self.locals_ = set()
         for n in walk_no_nested(fn):
             if isinstance(n, ast.Name) and isinstance(n.ctx, (ast.Store, ast.Del)) and n.id not in params:
@@ -384,7 +409,34 @@ class GenEval(AutoEvaluator):
             c = self.consts.get(self.rel, nm)
             if c is not None:
                 return c
+        if nm not in self.params_ and not self._is_global(nm):
+            return Unknown(f"name `{nm}` is not defined")       # NameError at run time - never a symbol that may coincide with an expected one
         return F.sym(nm)
+
+    def _is_global(self, nm):
+        import builtins
+        if hasattr(builtins, nm):
+            return True
+        m = getattr(self.fn, "_vmod", None)
+        if m is None:
+            return True
+        g = getattr(m, "_c08_globals", None)
+        if g is None:
+            g = set()
+            for st in m.tree.body:
+                for n in ([st] if not isinstance(st, (ast.If, ast.Try)) else ast.walk(st)):
+                    if isinstance(n, (ast.Import, ast.ImportFrom)):
+                        for al in n.names:
+                            g.add((al.asname or al.name).split(".")[0])
+                    elif isinstance(n, (ast.FunctionDef, ast.ClassDef, ast.AsyncFunctionDef)):
+                        g.add(n.name)
+                    elif isinstance(n, (ast.Assign, ast.AnnAssign, ast.AugAssign)):
+                        for t in (n.targets if isinstance(n, ast.Assign) else [n.target]):
+                            for x in ast.walk(t):
+                                if isinstance(x, ast.Name):
+                                    g.add(x.id)
+            m._c08_globals = g
+        return nm in g
 
     def canon_dotted(self, node):
         """dotted chain with the root local replaced by the object it names (`pc = self.pc; pc.F` -> self.pc.F)"""
@@ -907,6 +959,8 @@ class GenEval(AutoEvaluator):
                 if self.strict or self.in_loop or risky:
                     if not (_has_yield(st) and not self.in_loop and all(isinstance(s_, ast.Expr) for s_ in st.body) and not st.orelse):
                         raise Unsupported(f"undecided test `{ast.unparse(st.test)}` at line {st.lineno}")
+                if _has_yield(st):
+                    self.maybe_prime.append(st)
                 for t in _store_targets(st.body + st.orelse):
                     d = t.id if isinstance(t, ast.Name) else self.canon_dotted(t)
                     if d:
@@ -929,6 +983,7 @@ class GenEval(AutoEvaluator):
             if isinstance(st.value, ast.Constant):
                 return
             if isinstance(st.value, ast.Yield) and not self.in_loop:
+                self.prime_yields.append(st)         # the generator parks here before it ever receives a message
                 return
             self.ev(st.value)
             self.trace.append(("stmt", st))
